@@ -368,7 +368,7 @@ class Duration(timedelta):
             return self.__class__(
                 years=self._years * other,
                 months=self._months * other,
-                seconds=self._total * other,
+                microseconds=self._to_microseconds() * other,
             )
 
         if isinstance(other, float):
